@@ -324,18 +324,14 @@ func (env *Zlisp) Compare(a Sexp, b Sexp) (int, error) {
 func compareUint64(i *SexpUint64, expr Sexp) (int, error) {
 	switch e := expr.(type) {
 	case *SexpUint64:
-		return signumUint64(i.Val - e.Val), nil
+		if i.Val < e.Val {
+			return -1, nil
+		}
+		if i.Val > e.Val {
+			return 1, nil
+		}
+		return 0, nil
 	}
 	errmsg := fmt.Sprintf("err 101: cannot compare %T to %T", i, expr)
 	return 0, errors.New(errmsg)
-}
-
-func signumUint64(i uint64) int {
-	if i > 0 {
-		return 1
-	}
-	if i < 0 {
-		return -1
-	}
-	return 0
 }
